@@ -99,6 +99,7 @@ def execute(case):
     log = EventLog(case.get('run_seed'))
     p = case['params']
     viol, probes, sigs, traces = [], {}, [], []
+    orders = []
     steps = 0
     sim_time = 0.0
 
@@ -126,6 +127,8 @@ def execute(case):
             sim_time += res.get('sim_time', 0.0)
             traces.append(res.get('schedule_trace', []))
             order = (res.get('pool_orders') or [[]])[0] if res.get('pool_orders') else []
+            if order:
+                orders.append(f'{len(order)}:' + ','.join(map(str, order[:40])))
             jobs = res.get('jobs', [])
             log.add('mode', name, res.get('digest_events'), res.get('exception'), o['status'])
             nontrivial = False
@@ -217,7 +220,7 @@ def execute(case):
                 if multi:
                     V('molecule-written-by-several-jobs', name[0], reads=sorted(multi)[:5], **ctx)
     return {'violations': viol, 'digest': log.digest(), 'probes': probes, 'faults': {}, 'evals': len(case['modes']), 'sigs': sigs,
-            'steps': steps, 'sim_time': sim_time, 'nontrivial': any(s[1] for s in sigs), 'schedule_traces': traces}
+            'steps': steps, 'sim_time': sim_time, 'nontrivial': any(s[1] for s in sigs), 'schedule_traces': traces, 'sets': {'delivery_orders': orders}}
 
 
 def make_explicit(case, out):
